@@ -7,11 +7,12 @@ LEVEL = "model_checking"
 INV = "INVARIANTS RefCount NoLeak NoDangling EmptyAtEnd NullNeverCounted TypeOK Emit\nCHECK_DEADLOCK FALSE\n"
 
 
-def cfg(name, slots, fams, depth, emit=True):
+def cfg(name, slots, fams, depth, emit=True, ops=("all",)):
     path = os.path.join(vlib.SPEC, "gen_Lifetime_%s.cfg" % name)
     with open(path, "w") as f:
-        f.write("SPECIFICATION Spec\nCONSTANTS Slots = {%s} Fams = {%s} Depth = %d EmitOn = %s\n%s" % (
-            ",".join(str(s) for s in slots), ",".join('"%s"' % x for x in fams), depth, "TRUE" if emit else "FALSE", INV))
+        f.write("SPECIFICATION Spec\nCONSTANTS Slots = {%s} Fams = {%s} Depth = %d EmitOn = %s Ops = {%s}\n%s" % (
+            ",".join(str(s) for s in slots), ",".join('"%s"' % x for x in fams), depth, "TRUE" if emit else "FALSE",
+            ",".join('"%s"' % x for x in ops), INV))
     return os.path.basename(path)
 
 
@@ -31,10 +32,14 @@ def run(chk):
     if thorough:
         jobs += [("dv4", cfg("dv4", (1, 2, 3), ("dv",), 4), {}), ("csr3", cfg("csr3", (1, 2, 3), ("csr",), 3), {}),
                  ("mix3", cfg("mix3", (1, 2, 3), ("dv", "csr"), 3), {}),
+                 ("layout6", cfg("layout6", (1, 2, 3), ("csr",), 6, ops=("create", "layout", "destroy", "clone")), {}),
+                 ("rangemove5", cfg("rangemove5", (1, 2, 3), ("dv",), 5, ops=("create", "range", "move", "destroy", "clear", "convert")), {}),
                  ("sim", cfg("sim", (1, 2, 3, 4), ("dv", "csr"), 14), dict(simulate=4000, depth=16, tseed=vlib.seed()))]
     else:
         jobs += [("dv3", cfg("dv3", (1, 2, 3), ("dv",), 3), {}), ("csr3", cfg("csr3", (1, 2), ("csr",), 3), {}),
                  ("csr3b", cfg("csr3b", (1, 2, 3), ("csr",), 2), {}),
+                 ("layout5", cfg("layout5", (1, 2, 3), ("csr",), 5, ops=("create", "layout", "destroy")), {}),
+                 ("rangemove4", cfg("rangemove4", (1, 2, 3), ("dv",), 4, ops=("create", "range", "move", "destroy")), {}),
                  ("sim", cfg("sim", (1, 2, 3), ("dv", "csr"), 9), dict(simulate=1500, depth=10, tseed=vlib.seed()))]
     cases = []
     with cf.ThreadPoolExecutor(max_workers=4) as ex:
